@@ -209,6 +209,61 @@ class Tables:
         return sp
 
 
+    def host_spec(self, e):
+        """(spec of a minimal valid tree in which element e is a child of the root, index of that child), or None when
+        no rule permits e as a child (cached).  The tree serves to validate a test node of that element as an INNER node
+        (validate.tree from an ancestor), a call form that behaves like validating the node on its own"""
+        cache = self.__dict__.setdefault("_hosts", {})
+        if e in cache:
+            return cache[e]
+        best = None
+        for h in sorted(self.known):
+            rn = self.known[h]
+            if self.cost.get(h, INF) == INF or h in ("metadata",):
+                continue
+            usable = self.usable(rn)
+            if e not in usable:
+                continue
+            spec, alpha, mixed, dfa = self.lang(rn)
+            # shortest accepted word that contains e: breadth-first over (state, seen)
+            start = (dfa.start, False)
+            prev = {start: None}
+            queue = [start]
+            goal = None
+            while queue and goal is None:
+                nxt = []
+                for (s_, seen) in queue:
+                    if seen and s_ in dfa.acc:
+                        w = []
+                        cur = (s_, seen)
+                        while prev[cur] is not None:
+                            cur, a = prev[cur]
+                            w.append(a)
+                        w.reverse()
+                        if lang.accepts(spec, tuple(w), True, mixed):
+                            goal = w
+                            break
+                    for a in usable:
+                        t = (dfa.trans[(s_, a)], seen or a == e)
+                        if t[0] in self.d2a(rn) and t not in prev:
+                            prev[t] = ((s_, seen), a)
+                            nxt.append(t)
+                queue = nxt
+            if goal is None or len(goal) > 12:
+                continue
+            cost = sum(self.cost.get(a, 1) for a in goal)
+            if best is None or cost < best[0]:
+                best = (cost, h, goal)
+        if best is None:
+            cache[e] = None
+            return None
+        _, h, word = best
+        sp = self.min_spec(h)
+        sp["k"] = [self.min_spec(a) for a in word]
+        cache[e] = (sp, word.index(e))
+        return cache[e]
+
+
 _tables = None
 
 
